@@ -241,6 +241,22 @@ def run(cfg, ctx):
                 seen.add(r)
                 vals.append(v)
         vals = vals[:400]
+
+        # equal values built differently: every mapping (also nested) with its keys inserted in reverse order
+        def rev(v):
+            if isinstance(v, dict):
+                return {k: rev(v[k]) for k in reversed(list(v))}
+            if isinstance(v, list):
+                return [rev(x) for x in v]
+            if isinstance(v, tuple):
+                return tuple(rev(x) for x in v)
+            return v
+
+        for v in list(vals):
+            r = rev(v)
+            if repr(r) not in seen:
+                seen.add(repr(r))
+                vals.append(r)
         fails = []
         evals = 0
         hs = []
@@ -262,7 +278,7 @@ def run(cfg, ctx):
                 fails.append({"a": repr(a), "b": repr(b), "why": "equal values, different hashable"})
             if same_shape and a != b and ha == hb:
                 fails.append({"a": repr(a), "b": repr(b), "why": "different values of identical nested shape, equal hashable"})
-        ctx.bounded_result("make_hashable.preserves_equality", evals, len(vals), fails, rule="all pairs of distinct nested int/str/list/tuple/dict values of nesting depth <= 3 (first 400 by enumeration order); distinct by repr",
+        ctx.bounded_result("make_hashable.preserves_equality", evals, len(vals), fails, rule="all pairs of distinct nested int/str/list/tuple/dict values of nesting depth <= 3 (first 400 by enumeration order) plus, for every value containing a mapping with two or more keys, the equal value with the keys inserted in reverse order; distinct by repr",
                            samples=[repr(vals[5]), repr(vals[-1])], exhaustive=True)
         ctx.functions.add(("make_hashable", "transactron/utils/data_repr.py"))
 
